@@ -50,7 +50,11 @@ func draw(t *rapid.T) sim.ChainCase {
 			// value (accepted => sound)
 			e := g.C.Net.HardforkV2.EphemeralOutputHeight
 			child := g.C.Height() + 1
-			if len(honest.Transactions)+len(honest.V2Transactions()) > 0 && (child == e || child == e+1 || rapid.IntRange(0, 3).Draw(g.T, "wrapProbes") == 0) {
+			revises := false // blocks that revise a v2 contract are always probed (a revision may shift what a later expiry pays)
+			for _, txn := range honest.V2Transactions() {
+				revises = revises || len(txn.FileContractRevisions) > 0
+			}
+			if len(honest.Transactions)+len(honest.V2Transactions()) > 0 && (child == e || child == e+1 || revises || rapid.IntRange(0, 3).Draw(g.T, "wrapProbes") == 0) {
 				g.NewAdv(honest).InflationProbes()
 			}
 		},
